@@ -149,7 +149,10 @@ async def next_step_settled(sim: SimRunner, world: World) -> bool:
         if sim.next_steps and sim.next_steps[0] == sim.progress.time:
             return True
         else:
-            await_time = sim.next_steps[0] if sim.next_steps else TieredTime(world.until) + sim.from_world_time
+            # Progress never exceeds the end of the simulation: a next
+            # step beyond it must not be waited for.
+            end = TieredTime(world.until) + sim.from_world_time
+            await_time = min(sim.next_steps[0], end) if sim.next_steps else end
             _, pending = await asyncio.wait(
                 [
                     asyncio.create_task(sim.progress.has_reached(await_time)),
